@@ -629,20 +629,33 @@ fn run_case_inner(case: &Value) -> Value {
 /// every case runs in a fresh thread inside a fresh single-threaded rayon pool: rosomaxa's repeatable RNG is a
 /// thread-local seeded with 0 and rayon would otherwise spread work over threads nondeterministically
 fn run_case(case: &Value) -> Value {
-    let pool = rayon::ThreadPoolBuilder::new().num_threads(1).stack_size(64 * 1024 * 1024).build().expect("pool");
+    static TIMEOUTS: AtomicU64 = AtomicU64::new(0);
     let case = case.clone();
-    let res = pool.install(move || std::panic::catch_unwind(std::panic::AssertUnwindSafe(|| run_case_inner(&case))));
-    match res {
-        Ok(v) => v,
-        Err(e) => {
-            let msg = if let Some(s) = e.downcast_ref::<&str>() {
+    let (tx, rx) = std::sync::mpsc::channel();
+    // watchdog: a history of a few operator calls on a 10-job problem takes milliseconds; a broken bookkeeping can make
+    // InsertionHeuristic::process loop forever (and grow a tour without bound), so a stuck case is abandoned
+    std::thread::spawn(move || {
+        let pool = rayon::ThreadPoolBuilder::new().num_threads(1).stack_size(64 * 1024 * 1024).build().expect("pool");
+        let res = pool.install(move || std::panic::catch_unwind(std::panic::AssertUnwindSafe(|| run_case_inner(&case))));
+        let _ = tx.send(res.map_err(|e| {
+            if let Some(s) = e.downcast_ref::<&str>() {
                 s.to_string()
             } else if let Some(s) = e.downcast_ref::<String>() {
                 s.clone()
             } else {
                 "panic".to_string()
-            };
-            panic!("{}", msg)
+            }
+        }));
+    });
+    match rx.recv_timeout(std::time::Duration::from_secs(20)) {
+        Ok(Ok(v)) => v,
+        Ok(Err(msg)) => panic!("{}", msg),
+        Err(_) => {
+            if TIMEOUTS.fetch_add(1, AtomicOrdering::SeqCst) >= 1 {
+                // the abandoned threads keep spinning / allocating: stop the whole process, the driver reports the missing results
+                std::process::exit(3);
+            }
+            panic!("timeout: the history did not finish within 20 s (an operator does not terminate)")
         }
     }
 }
